@@ -128,3 +128,48 @@ def enum_desc(items, name):
     if any(a[3] != nonexh for a in arms):
         raise ValueError("Ok-wrapping of the arms does not match the default arm")
     return {"raw": raw, "reader": reader, "nonexh": nonexh, "arms": [(a[0], a[1], a[2]) for a in arms]}
+
+
+def consts_desc(items, name, base_ident, arbitrary):
+    """canonical description of ZERO / DEFAULT_RAW_VALUE / DEFAULT / new() / Default::default():
+    dict(zero=0, default=None | ('lit', n) | ('const', ident))"""
+    out = {"zero": None, "default": None}
+    byname = {}
+    for it in items:
+        if it.impl_header == [name] or (it.impl_header and it.impl_header[-1] == name and "Default" in it.impl_header):
+            byname.setdefault(it.name, it)
+    z = byname.get("ZERO")
+    if z is None:
+        raise ValueError("ZERO missing")
+    zs = join(z.body)
+    if arbitrary:
+        ok = zs == "Self : : new_with_raw_value ( %s : : new ( 0 ) )" % base_ident
+    else:
+        ok = zs == "Self : : new_with_raw_value ( 0 )"
+    if not ok:
+        raise ValueError("unexpected ZERO: " + zs[:120])
+    out["zero"] = 0
+    drv = byname.get("DEFAULT_RAW_VALUE")
+    if drv is not None:
+        ty = join([x for x in drv.sig if True]) if False else " ".join(drv.sig)
+        if ty != ": %s" % base_ident:
+            raise ValueError("DEFAULT_RAW_VALUE has type '%s'" % ty)
+        body = join(drv.body)
+        if arbitrary:
+            m = re.match(r"^%s : : new \( (\S+) \)$" % re.escape(base_ident), body)
+            if not m:
+                raise ValueError("unexpected DEFAULT_RAW_VALUE: " + body[:120])
+            body = m.group(1)
+        m = re.match(r"^(0x[0-9a-fA-F_]+|[0-9][0-9_]*)$", body)
+        out["default"] = ["lit", int(body.replace("_", ""), 0)] if m else ["const", body]
+        for nm, want in (("DEFAULT", "Self : : new_with_raw_value ( Self : : DEFAULT_RAW_VALUE )"), ("new", "Self : : DEFAULT"), ("default", "Self : : DEFAULT")):
+            it = byname.get(nm)
+            if it is None:
+                raise ValueError("%s missing" % nm)
+            if join(it.body) != want:
+                raise ValueError("unexpected %s: %s" % (nm, join(it.body)[:120]))
+    else:
+        for nm in ("DEFAULT", "new", "default"):
+            if nm in byname:
+                raise ValueError("%s present without DEFAULT_RAW_VALUE" % nm)
+    return out
